@@ -2,6 +2,7 @@
   Model driver for C05 (line protocol, see harness/c05_main.c: same ops, same answers). Imports Model + Gen only.
 
     base <hex> / orig <hex>                          -> "ok <len>"
+    reuse <0|1>                                      -> "ok <n>"   (harness: persistent lzma_stream; no effect on the model)
     one    <api> <flags> w | f <bit> | t <len> | e <off> <del> <inshex>
     flips  <api> <flags> <from> <to>     truncs <api> <flags> <from> <to>
         -> per damaged input "<tag> <ret> <consumed> <notices> <outlen> <lcp> <crc64 of the output, hex>"
@@ -83,6 +84,9 @@ def step (s : St) (ws : List String) : St × String :=
     match bytesOfHex hx with
     | some b => ({ s with orig := b.toArray }, s!"ok {b.length}")
     | none => (s, "bad-op")
+  | ["reuse", n] =>
+    -- handle reuse is invisible to the model: a re-initialised decoder behaves like a fresh one
+    (s, s!"ok {if n == "0" then 0 else 1}")
   | ["one", api, flags, "w"] =>
     match flags.toNat? with
     | some fl => (s, runOne s api fl s.base "w")
